@@ -202,6 +202,7 @@ class GIRWriter(XMLWriter):
         attrs = [('name', alias.name)]
         if alias.ctype is not None:
             attrs.append(('c:type', alias.ctype))
+        self._append_version(alias, attrs)
         self._append_node_generic(alias, attrs)
         with self.tagcontext('alias', attrs):
             self._write_generic(alias)
@@ -671,6 +672,7 @@ class GIRWriter(XMLWriter):
         if field.anonymous_node:
             if isinstance(field.anonymous_node, ast.Callback):
                 attrs = [('name', field.name)]
+                self._append_version(field, attrs)
                 self._append_node_generic(field, attrs)
                 with self.tagcontext('field', attrs):
                     self._write_generic(field)
